@@ -189,6 +189,9 @@ func init() {
 				p.BlockOps = []string{"entity_add", "entity_delete", "custom", "comp_add", "comp_delete", "comp_update", "pose", "type_add", "subscribe", "unsubscribe", "action", "asset_add", "joiner", "close", "switch", "quad_sample", "get_region", "comp_list"}
 			})
 			r := simrt.NewRand(seed, "c09")
+			if r.Bool(0.25) {
+				return componentStorm(seed, r, p)
+			}
 			p.MinMembers = 2 + r.Intn(6)
 			sc := GenHistory(seed, p)
 			sc.Prop = "C09"
@@ -276,4 +279,65 @@ func runIDGenWorld(t *testing.T, seed uint64) *Result {
 		s.Close()
 	})
 	return res
+}
+
+// componentStorm: several members of one session update, list, add and delete the same few
+// components while another connection joins (its snapshot lists them), with the immediate
+// requests timed to arrive at a frame tick so that they overlap the flush of the updates.
+func componentStorm(seed uint64, r *simrt.Rand, p *Profile) *Scenario {
+	g := &genState{r: r, p: p, joined: map[int]string{}, dead: map[int]bool{}, sessN: 1}
+	n := 3 + r.Intn(4)
+	for c := 0; c < n; c++ {
+		g.join(c, "S0")
+	}
+	g.nConns = n
+	add := func(st Step) { g.steps = append(g.steps, st) }
+	add(Step{Conn: 0, Op: "type_add", Name: "alpha"})
+	add(Step{Conn: 1, Op: "type_add", Name: "beta"})
+	for i := 0; i < 2+r.Intn(2); i++ {
+		add(Step{Conn: i % n, Op: "entity_add", Seq: float32(i + 1)})
+	}
+	for i := 0; i < 2+r.Intn(3); i++ {
+		add(Step{Conn: r.Intn(n), Op: "comp_add", Typ: Ref{K: "reg", I: i % 2}, Ent: Ref{K: "any", I: i}, Data: "init"})
+	}
+	for c := 0; c < n; c++ {
+		if r.Bool(0.7) {
+			add(Step{Conn: c, Op: "subscribe", Typ: Ref{K: "reg", I: r.Intn(2)}})
+		}
+	}
+	for round := 0; round < 1+r.Intn(3); round++ {
+		g.nextBlk++
+		perm := r.Perm(n)
+		for i, c := range perm {
+			var st Step
+			switch {
+			case i < 2:
+				st = Step{Conn: c, Op: "comp_update", Typ: Ref{K: "comp", I: r.Intn(3)}, Data: "storm"}
+			case i == 2:
+				st = Step{Conn: c, Op: "comp_list", Typ: Ref{K: "reg", I: r.Intn(2)}}
+			default:
+				op := []string{"comp_list", "comp_update", "comp_delete", "comp_add", "entity_delete", "close"}[r.Intn(6)]
+				st = Step{Conn: c, Op: op, Typ: Ref{K: "comp", I: r.Intn(3)}, Ent: Ref{K: "any", I: r.Intn(3)}, Data: "x"}
+				if op == "comp_list" {
+					st.Typ = Ref{K: "reg", I: r.Intn(2)}
+				}
+			}
+			st.Block = g.nextBlk
+			add(st)
+		}
+		if r.Bool(0.7) {
+			add(Step{Conn: n + round, Op: "join", Sess: "S0", Block: g.nextBlk})
+		}
+	}
+	sc := &Scenario{Prop: "C09", Family: "history", Seed: seed, Steps: g.steps}
+	sc.World = genWorld(seed, r, p)
+	sc.World.Modules = []string{"vikja", "odal", "dagaz"}
+	sc.World.Decorators = true
+	if sc.World.Policy == "seq" {
+		sc.World.Policy = "rand"
+	}
+	sc.World.Net.Jitter = 0
+	sc.World.UnlockYield = []float64{0.2, 0.5, 0.8}[r.Intn(3)]
+	sc.World.FrameDuration = []time.Duration{time.Millisecond, 5 * time.Millisecond, 15 * time.Millisecond}[r.Intn(3)]
+	return sc
 }
